@@ -1216,7 +1216,17 @@ impl<'a, 'b> GeneratorState<'a> {
         cases: &'a Vec<(Vec<i32>, Vec<StatementLoc<'a>>)>,
         pos: usize,
     ) -> Result<(), Error> {
-        let e = self.generate_expr(expr, pos, false, false)?;
+        let nb_deferred = self.deferred_plusplus.len();
+        let mut e = self.generate_expr(expr, pos, false, false)?;
+        if self.deferred_plusplus.len() > nb_deferred {
+            // The operand is compared with every case: its value before the post-increments
+            // is kept in the accumulator
+            let signed = self.generate_assign(&ExprType::A(false), &e, pos, false)?;
+            self.settle_alternative(nb_deferred)?;
+            self.flags = FlagsState::Unknown;
+            self.acc_in_use = true;
+            e = signed;
+        }
         self.local_label_counter_if += 1;
         let switchend_label = format!(".switchend{}", self.local_label_counter_if);
         match self.loops.last() {
